@@ -63,6 +63,8 @@
 //	ParseAssignment(s) (Assignment, error)               inverse of String (replay files)
 //	EnumAssignments(d, visit func(Assignment) bool)      every assignment with ≤ d non-default
 //	                                   fields, ordered by number of deviations, then field, then alt
+//	                                   followed by the saturated assignments (every field non-default at
+//	                                   once: the k-th alternative of each field, for every k)
 //	CountAssignments(d) int64
 //	Encode(a) []byte                   the DER of the certificate (malformed where the model says
 //	                                   so). "valid" signatures are made with the Go standard
